@@ -124,11 +124,14 @@ row("crate::string::<impl core::str::traits::FromStr for %s>::from_str" % U, "fo
 # ---- codecs: encoders (C16) -- sizes derived from bit_len
 # (the rlp encoders' &bytes[BYTES - (bits+7)/8 ..] is discharged by the interval engine since bit_len's range
 #  [0, BITS] became a built-in trusted summary, see DESIGN section 6)
+SPLIT = "core::slice::<impl [T]>::split_at"
 for m in ("fastrlp_03", "fastrlp_04"):
     f = "crate::support::%s::<impl fastrlp::decode::Decodable for %s>::decode" % (m, U)
-    row(f, "foreign", IDX, "&buf[..header.payload_length]: fastrlp's Header::decode checks payload_length <= "
-        "remaining buffer length before returning Ok (read in fastrlp-0.4.0/src/decode.rs; foreign post-condition)")
-    row(f, "foreign", IDX + "~2", "&buf[header.payload_length..]: same foreign post-condition")
+    row(f, "foreign", IDX, "&buf[..header.payload_length] / &buf[header.payload_length..] / buf.split_at(header."
+        "payload_length): fastrlp's Header::decode checks payload_length <= remaining buffer length before returning Ok "
+        "(read in fastrlp-0.4.0/src/decode.rs; foreign post-condition).  Applies to every slice partition in the decoder "
+        "whose run-time bound is read from the Header that Header::decode returned (machine-checked side condition)",
+        any_what=[IDX, SPLIT, SPLIT + "_mut"], requires=[{"bound_from": "fastrlp::decode::<impl fastrlp::types::Header>::decode"}])
 row("crate::support::rlp::trim_leading_zeros", "foreign", IDX,
     "&bytes[zeros..] with zeros = position(..).unwrap_or(len) <= len (core post-condition)")
 row("crate::utils::trim_end_slice", "foreign", IDX,
